@@ -91,8 +91,8 @@ impl LruManager {
         let idx = if let Some(free_idx) = self.free_list.pop() {
             free_idx
         } else {
-            // Evict LRU tail to make room
-            let Some(evicted) = self.evict_tail() else {
+            // Evict LRU tail to make room and reuse its slot directly
+            let Some(evicted) = self.evict_tail_slot() else {
                 return false;
             };
             evicted
@@ -114,8 +114,17 @@ impl LruManager {
     /// Evict the least recently used entry (LRU tail).
     ///
     /// Returns the freed slot index, or `None` if the list is empty.
+    /// The slot is returned to the free list so a later `touch` can reuse it.
     ///
     pub fn evict_tail(&mut self) -> Option<u32> {
+        let tail = self.evict_tail_slot()?;
+        self.free_list.push(tail);
+        Some(tail)
+    }
+
+    /// Unlink and clear the LRU tail without returning its slot to the
+    /// free list. The caller owns the returned slot.
+    fn evict_tail_slot(&mut self) -> Option<u32> {
         let tail = self.header.lru_tail;
         if tail == LRU_SENTINEL {
             return None;
